@@ -162,7 +162,7 @@ def compare_shard(suite, shard, outs, stats, divs, maxdiv=200, collect=None, sat
         if len(stats.samples) < 3: stats.samples.append({'cfg': cfg, 'ops': ops[:12]})
         broken = False
         nspec = 0; nstrong = 0
-        was_ok = True
+        was_ok = True; all_ok = True
         rules = True
         ndiv0 = len(divs)
         prev = ''
@@ -195,6 +195,7 @@ def compare_shard(suite, shard, outs, stats, divs, maxdiv=200, collect=None, sat
                         key = f'safe-op/{opn}-{w[1] if len(w) > 1 else ""}'
                         stats.safe_breaks.setdefault(key, []).append((header, cfg, ops[:idx + 1]))
                 was_ok = s.startswith('+')
+                if not was_ok and not nospec: all_ok = False
             prev = CA_RE.sub('', m.split(' | ev=')[0]).split(' | ', 1)[-1]
             if i.startswith('<missing') and not s.startswith('+'):
                 continue       # the process aborted after the history had left the contract: nothing to compare
@@ -221,6 +222,10 @@ def compare_shard(suite, shard, outs, stats, divs, maxdiv=200, collect=None, sat
         got.append(i)
         if not broken and m != i and not (i.startswith('<missing') and not was_ok) and len(divs) < maxdiv:
             divs.append(Div(suite, header, cfg, ops, len(ops), 'tie', m, i)); divs[-1].rules_ok = rules
+        elif broken and m != i and m.startswith('live=') and i.startswith('live=') and all_ok and len(divs) < maxdiv * 4 + 400:
+            # the objects still alive at the end (leaks, double destruction) of a history that stayed within the contract: a departure
+            # from the Spec's ledger in its own right, also when an earlier line of the history already differed
+            divs.append(Div(suite, header, cfg, ops, len(ops), 'spec', m, i)); divs[-1].rules_ok = rules
         if mi < len(ml) and ml[mi].startswith('maps='):
             # vmem: mappings of the buffer's shared object that remain after it was released
             m, mi = nxt(ml, mi); i, ii = nxt(il, ii)
